@@ -1,5 +1,6 @@
 # MIT License: Copyright (c) 2021 Lorenzo Loconte, Gennaro Gala
 
+import threading
 from typing import Optional, Union, Tuple, List, Any, Callable
 
 import joblib
@@ -154,6 +155,9 @@ def eval_top_down(
     if not inplace:
         x = np.copy(x)
 
+    # Nodes evaluated concurrently can share a child: the updates of its mask must not interleave
+    masks_lock = threading.Lock()
+
     def eval_backward(n):
         if _verif_hooks is not None:
             _verif_hooks.task_begin(n)
@@ -161,13 +165,15 @@ def eval_top_down(
             mask = np.ix_(masks[n.id], n.scope)
             x[mask] = leaf_func(n, x[mask], **leaf_func_kwargs)
         elif isinstance(n, Product):
-            for c in n.children:
-                masks[c.id] |= masks[n.id]
+            with masks_lock:
+                for c in n.children:
+                    masks[c.id] |= masks[n.id]
         elif isinstance(n, Sum):
             children_lls = np.stack([lls[c.id] for c in n.children], axis=1)
             branch = sum_func(n, children_lls, **sum_func_kwargs)
-            for i, c in enumerate(n.children):
-                masks[c.id] |= masks[n.id] & (branch == i)
+            with masks_lock:
+                for i, c in enumerate(n.children):
+                    masks[c.id] |= masks[n.id] & (branch == i)
         else:
             raise NotImplementedError(f"Top down evaluation not implemented for node of type {n.__class__.__name__}")
         if _verif_hooks is not None:
